@@ -162,3 +162,80 @@ twin('c02-renew-left-local', 'C02', M, 'Method.RenewSearchData',
      '        left = oldpoint.GetLeft()\n        oldpoint.delta = Method.CalculateDelta(newpoint.GetX(), oldpoint.GetX(), self.dimension)')
 twin('c02-sel-nodeepcopy', 'C02', M, 'Method.CalculateIterationPoint',
      'new = copy.deepcopy(SearchDataItem(Point(newy, []), newx))', 'new = SearchDataItem(Point(newy, []), newx)')
+
+# ----------------------------------------------------------------------------- C03
+OT = 'iOpt/method/optim_task.py'
+fire('c03-link-infty', 'C03', M, 'Method.__init__', 'self.searchData.solution.solutionAccuracy = np.inf',
+     'self.searchData.solution.solutionAccuracy = np.infty', 'R-LINK')
+fire('c03-link-math', 'C03', EV, 'Evolvent.__CalculateNumbr', 'if math.isclose(iis, 0.0):', 'if math.is_close(iis, 0.0):',
+     'R-LINK')
+fire('c03-count-before', 'C03', M, 'Method.CalculateFunctionals',
+     '        point = self.task.Calculate(point, 0)\n        point.SetZ(point.functionValues[0].value)\n        point.SetIndex(0)\n\n        # Обновление числа испытаний\n        self.searchData.solution.numberOfGlobalTrials += 1',
+     '        self.searchData.solution.numberOfGlobalTrials += 1\n        point = self.task.Calculate(point, 0)\n        point.SetZ(point.functionValues[0].value)\n        point.SetIndex(0)\n',
+     'R03.1')
+fire('c03-count-twice', 'C03', M, 'Method.CalculateFunctionals', 'self.searchData.solution.numberOfGlobalTrials += 1',
+     'self.searchData.solution.numberOfGlobalTrials += 2', 'R03.1')
+fire('c03-count-elsewhere', 'C03', M, 'Method.FinalizeIteration', 'self.iterationsCount += 1',
+     'self.iterationsCount += 1\n        self.searchData.solution.numberOfGlobalTrials += 1', 'R03.1')
+fire('c03-eval-twice', 'C03', M, 'Method.CalculateFunctionals', '        point = self.task.Calculate(point, 0)\n',
+     '        point = self.task.Calculate(point, 0)\n        point = self.task.Calculate(point, 0)\n', 'R03.1')
+fire('c03-extra-evaluator', 'C03', M, 'Method.UpdateOptimum', 'self.searchData.solution.bestTrials[0] = self.best',
+     'self.searchData.solution.bestTrials[0] = self.best\n        self.task.problem.Calculate(point.point, point.functionValues[0])',
+     None, why='second caller of Problem.Calculate on the global path (role ambiguity or R03.2)')
+fire('c03-second-eval-in-iter', 'C03', P, 'Process.DoGlobalIteration',
+     '                self.method.UpdateOptimum(newpoint)\n', '                self.method.UpdateOptimum(newpoint)\n                self.method.CalculateFunctionals(oldpoint)\n',
+     'R03.3')
+fire('c03-no-finalize', 'C03', P, 'Process.DoGlobalIteration', '                self.method.FinalizeIteration()\n', '',
+     'R03.3')
+fire('c03-finalize-twice', 'C03', M, 'Method.RenewSearchData', 'self.searchData.InsertDataItem(newpoint, oldpoint)',
+     'self.searchData.InsertDataItem(newpoint, oldpoint)\n        self.FinalizeIteration()', 'R03.3')
+fire('c03-seed-count', 'C03', M, 'Method.FirstIteration', 'self.iterationsCount = 1', 'self.iterationsCount = 0',
+     'R03.3')
+fire('c03-stop-gt', 'C03', M, 'Method.CheckStopCondition', 'self.iterationsCount >= self.parameters.itersLimit',
+     'self.iterationsCount > self.parameters.itersLimit', 'R03.4')
+fire('c03-stop-le', 'C03', M, 'Method.CheckStopCondition', 'self.min_delta < self.parameters.eps',
+     'self.min_delta <= self.parameters.eps', 'R03.4')
+fire('c03-stop-and', 'C03', M, 'Method.CheckStopCondition', 'self.min_delta < self.parameters.eps or',
+     'self.min_delta < self.parameters.eps and', 'R03.4')
+fire('c03-stop-eq', 'C03', M, 'Method.CheckStopCondition', 'self.iterationsCount >= self.parameters.itersLimit',
+     'self.iterationsCount == self.parameters.itersLimit', 'R03.4')
+fire('c03-stop-inverted', 'C03', M, 'Method.CheckStopCondition',
+     '            self.stop = True\n        else:\n            self.stop = False',
+     '            self.stop = False\n        else:\n            self.stop = True', 'R03.4')
+twin('c03-stop-commuted', 'C03', M, 'Method.CheckStopCondition',
+     'if self.min_delta < self.parameters.eps or self.iterationsCount >= self.parameters.itersLimit:',
+     'if self.parameters.itersLimit <= self.iterationsCount or self.parameters.eps > self.min_delta:')
+twin('c03-stop-negated', 'C03', M, 'Method.CheckStopCondition',
+     'if self.min_delta < self.parameters.eps or self.iterationsCount >= self.parameters.itersLimit:\n            self.stop = True\n        else:\n            self.stop = False',
+     'if self.min_delta >= self.parameters.eps and self.iterationsCount < self.parameters.itersLimit:\n            self.stop = False\n        else:\n            self.stop = True')
+twin('c03-stop-trials', 'C03', M, 'Method.CheckStopCondition', 'self.iterationsCount >= self.parameters.itersLimit',
+     'self.searchData.solution.numberOfGlobalTrials >= self.parameters.itersLimit')
+twin('c03-stop-direct', 'C03', M, 'Method.CheckStopCondition',
+     'if self.min_delta < self.parameters.eps or self.iterationsCount >= self.parameters.itersLimit:\n            self.stop = True\n        else:\n            self.stop = False\n\n        return self.stop',
+     'self.stop = self.min_delta < self.parameters.eps or self.iterationsCount >= self.parameters.itersLimit\n        return self.stop')
+fire('c03-loop-posttest', 'C03', P, 'Process.Solve',
+     '            while not self.method.CheckStopCondition():\n                self.DoGlobalIteration()',
+     '            while True:\n                self.DoGlobalIteration()\n                if self.method.CheckStopCondition():\n                    break',
+     'R03.5')
+fire('c03-loop-batch', 'C03', P, 'Process.Solve', '                self.DoGlobalIteration()\n',
+     '                self.DoGlobalIteration(10)\n', 'R03.5')
+fire('c03-loop-two-steps', 'C03', P, 'Process.Solve', '                self.DoGlobalIteration()\n',
+     '                self.DoGlobalIteration()\n                self.DoGlobalIteration()\n', 'R03.5')
+twin('c03-loop-break-form', 'C03', P, 'Process.Solve',
+     '            while not self.method.CheckStopCondition():\n                self.DoGlobalIteration()',
+     '            while True:\n                if self.method.CheckStopCondition():\n                    break\n                self.DoGlobalIteration()')
+twin('c03-loop-explicit-one', 'C03', P, 'Process.Solve', '                self.DoGlobalIteration()\n',
+     '                self.DoGlobalIteration(1)\n')
+fire('c03-acc-new-interval', 'C03', M, 'Method.CalculateIterationPoint',
+     'self.min_delta = min(old.delta, self.min_delta)', 'self.min_delta = min(old.globalR, self.min_delta)', 'R03.6')
+fire('c03-acc-overwrite', 'C03', M, 'Method.CalculateIterationPoint',
+     'self.min_delta = min(old.delta, self.min_delta)', 'self.min_delta = old.delta', 'R03.6')
+fire('c03-acc-init', 'C03', M, 'Method.__init__', 'self.searchData.solution.solutionAccuracy = np.inf',
+     'self.searchData.solution.solutionAccuracy = 1.0', 'R03.6')
+fire('c03-acc-renewal', 'C03', M, 'Method.RenewSearchData', 'self.searchData.InsertDataItem(newpoint, oldpoint)',
+     'self.searchData.InsertDataItem(newpoint, oldpoint)\n        self.min_delta = min(newpoint.delta, self.min_delta)',
+     'R03.6')
+twin('c03-acc-commuted', 'C03', M, 'Method.CalculateIterationPoint',
+     'self.min_delta = min(old.delta, self.min_delta)', 'self.min_delta = min(self.min_delta, old.delta)')
+fire('c03-new-while', 'C03', M, 'Method.RecalcAllCharacteristics', '        self.searchData.RefillQueue()\n',
+     '        while self.searchData.GetCount() < 0:\n            pass\n        self.searchData.RefillQueue()\n', 'R03.7')
